@@ -29,6 +29,17 @@ pub fn parse_bytes(tok: &str) -> Vec<u8> {
                 .map(|i| ((parts[1] + i * parts[2]) & 255) as u8)
                 .collect()
         }
+        b'r' => {
+            // pseudo-random (incompressible) bytes: r<len>.<seed>, LCG x = x*1103515245+12345 mod 2^31
+            let parts: Vec<u64> = tok[1..].split('.').map(|x| x.parse().unwrap()).collect();
+            let mut x: u64 = parts[1] & 0x7fff_ffff;
+            (0..parts[0])
+                .map(|_| {
+                    x = (x * 1103515245 + 12345) & 0x7fff_ffff;
+                    ((x >> 16) & 255) as u8
+                })
+                .collect()
+        }
         _ => panic!("bad bytes token {}", tok),
     }
 }
